@@ -59,10 +59,28 @@ def fam_solve_prop(ctx, R_, n):
     _solve_body(ctx, R_, n, M)
 
 
-def _solve_body(ctx, R_, n, M):
+def fam_solve_shape(ctx, R_, n, mode):
+    """the same equation given R_ times as ONE row object (mode 'aliased'), or rows given as tuples (mode 'tuples'): valid augmented
+    matrices whose container shape differs from a list of fresh lists"""
+    if mode == 'aliased':
+        r = [ctx.choice('r%d' % j, DOM) for j in range(n + 1)]
+        M = [list(r) for _ in range(R_)]
+    else:
+        M = [[ctx.choice('m%d%d' % (i, j), [-1, 0, 1, 2]) for j in range(n + 1)] for i in range(R_)]
+    _solve_body(ctx, R_, n, M, mode)
+
+
+def _solve_body(ctx, R_, n, M, mode='fresh'):
     A = [row[:-1] for row in M]
     lib_m = [[ctx.lib(x) if not isinstance(x, F) else int(x) for x in row] for row in M]
-    st, sol = call(G.solve, [list(r) for r in lib_m])
+    if mode == 'aliased':
+        row = list(lib_m[0])
+        arg = [row for _ in range(R_)]
+    elif mode == 'tuples':
+        arg = [tuple(r) for r in lib_m]       # (the outer container must be a list: the library swaps rows in it)
+    else:
+        arg = [list(r) for r in lib_m]
+    st, sol = call(G.solve, arg)
     if st == 'raise':
         ctx.outcome('raise')
         ctx.fail('C16:solve raises %s' % exc_sig(sol), repr(sol))
@@ -130,6 +148,8 @@ def families(tier, seed):
         for fixed in product(dom, repeat=nfix):
             fams.append(Family('solve/%dx%d/%s' % (R_, n, ','.join(map(str, fixed)) or '-'), fam_solve, (R_, n, fixed, dom),
                                budget_s=None))
+    for R_, n, mode in ((2, 2, 'aliased'), (3, 2, 'aliased'), (2, 3, 'aliased'), (2, 2, 'tuples')):
+        fams.append(Family('solve-%s/%dx%d' % (mode, R_, n), fam_solve_shape, (R_, n, mode), budget_s=None))
     for R_, n in (((3, 2),) if tier == 'quick' else ((3, 2), (3, 3))):
         fams.append(Family('solve-proportional/%dx%d' % (R_, n), fam_solve_prop, (R_, n), budget_s=None))
     return fams
